@@ -312,10 +312,10 @@ def run_job(job):
 
 def make_jobs(tier, seed):
     rng = random.Random(30000 + seed)
-    n = 3000 if tier == 'quick' else 90000
+    n = 3000 if tier == 'quick' else 500000
     subs = [{'seed': rng.randrange(1 << 30), 'i': i, 'length': rng.choice([8, 15, 30, 60])} for i in range(n)]
     B = 25
     jobs = [{'kind': 'batch', 'batch': subs[i:i + B]} for i in range(0, n, B)]
     # the same shadow account inside real backtest sessions (real strategy layer, both simulators)
-    jobs += [{'kind': 'session', 'seed': rng.randrange(1 << 30)} for _ in range(120 if tier == 'quick' else 2500)]
+    jobs += [{'kind': 'session', 'seed': rng.randrange(1 << 30)} for _ in range(120 if tier == 'quick' else 6000)]
     return jobs
